@@ -3009,6 +3009,46 @@ theorem C10_rejects_witness (c : DimCfg) (h : c.checkEw = false) : ¬ C10_reject
     rw [h2] at this
     simp at this
 
+/-! ## 9. Wave 7 — the result of an arrayed equation does not depend on what the target held before -/
+
+/-- relative to the probed mechanism: after an arrayed equation was accepted, the target has exactly the entries of
+the result (keys, columns, index names) whatever sub-elements it had before -/
+def C10_target_full (c : TgtCfg) : Prop :=
+  ∀ (old : Elem) (r : Result), r.isArr = true →
+    (targetAfter c old r).keys = (r.descr old.name).keys ∧ (targetAfter c old r).inner = (r.descr old.name).inner ∧
+      (targetAfter c old r).named = (r.descr old.name).named
+
+theorem C10_target_full_of_good (c : TgtCfg) (h : c.resetTarget = true) : C10_target_full c := by
+  intro old r hr
+  cases r with
+  | scalar p => simp [Result.isArr] at hr
+  | vector nm es => simp [targetAfter, h]
+  | matrix rows => simp [targetAfter, h]
+
+/-- **witness**: without the reset a 3-vector target assigned a 2-vector result keeps three entries -/
+theorem C10_target_witness (c : TgtCfg) (h : c.resetTarget = false) : ¬ C10_target_full c := by
+  cases c with
+  | mk r =>
+    simp only at h; subst h
+    intro hf
+    have := (hf (Elem.vec "R" 3) (.vector false [(.i 0, .num "1"), (.i 1, .num "2")]) rfl).1
+    revert this
+    decide +kernel
+
+/-- every kind of target that accepts an arrayed equation shows the entries of the equation -/
+def C10_target_kinds (c : KindCfg) : Prop :=
+  ∀ (α : Type) (zero v : α) (k : TKind), targetEntry c zero k v = v
+
+theorem C10_target_kinds_of_good (c : KindCfg) (h : c.constantKeepsEquation = true) : C10_target_kinds c := by
+  intro α zero v k
+  cases k <;> simp [targetEntry, h]
+
+/-- **witness** (known finding `constant-target-operator-dropped`): a Constant target accepts the equation and shows 0 -/
+theorem C10_target_kinds_witness (c : KindCfg) (h : c.constantKeepsEquation = false) : ¬ C10_target_kinds c := by
+  intro hf
+  have := hf Nat 0 1 .constant
+  simp [targetEntry, h] at this
+
 /-! ## C10 at full strength (for the modelled operand kinds) -/
 
 /-- The wave-2 clauses of `C10_full`.  For ALL operand TREES `x` (numbers, elements, operators over such
@@ -3148,7 +3188,9 @@ def C10_full : Prop :=
   (∀ d1 d2 : Dims, (resolveEwD d1 d2).isSome = true ↔ (d1 = .val ∨ d2 = .val ∨ d1 = d2)) ∧
   (∀ d1 d2 : Dims, (resolveDotD d1 d2).isSome = true ↔
       (¬ (d1 = .val ∧ d2 = .val) ∧
-        (d1 = .val ∨ d2 = .val ∨ (if d1.isVec then d1.rows = d2.rows else d1.snd = d2.rows))))
+        (d1 = .val ∨ d2 = .val ∨ (if d1.isVec then d1.rows = d2.rows else d1.snd = d2.rows)))) ∧
+  -- wave 7: the target holds exactly the result's entries (mechanism of the repaired code)
+  C10_target_full ⟨true⟩
 
 theorem C10_full_holds : C10_full := by
   refine ⟨fun f a b r h p hp => ⟨expand_wl f a b r h p hp, expand_parses f a b r h p hp⟩,
@@ -3156,7 +3198,7 @@ theorem C10_full_holds : C10_full := by
     expand_none_of_resolve, expand_none_of_ctor, matEntries_entry, vecEntries_entry, C10_wave2_holds,
     runHist_store, use_after_history, agg_after_history,
     C10_nested_full_of_good ⟨true⟩ rfl, C10_rejects_of_good ⟨true⟩ rfl, expandE_rejects,
-    resolveEwD_some_iff, resolveDotD_some_iff⟩
+    resolveEwD_some_iff, resolveDotD_some_iff, C10_target_full_of_good ⟨true⟩ rfl⟩
   · intro R _ O ρ σ
     exact ⟨elementwise_spec O ρ σ, nmul_spec O ρ σ, dot_mm O ρ σ, dot_mv O ρ σ, dot_vm O ρ σ, dot_vv O ρ σ,
       fun a b idx p hb ha h => dot_scalar_right O ρ σ a b idx hb ha p h,
@@ -3199,6 +3241,10 @@ example :
 #print axioms C10_nested_witness
 #print axioms C10_rejects_of_good
 #print axioms C10_rejects_witness
+#print axioms C10_target_full_of_good
+#print axioms C10_target_witness
+#print axioms C10_target_kinds_of_good
+#print axioms C10_target_kinds_witness
 #print axioms expandE_rejects
 #print axioms aggTermT_eval
 #print axioms dot_mv_ew
